@@ -8,7 +8,7 @@ RULE = ("TLC explores the recovery decision of the small-limit VM model for ever
         "unbounded recursion, value-stack exhaustion) x 10 contexts (plain, try-catch, try-finally, catch-rethrow, Invoker callback, try inside a pooled / unpooled callback, a function the host invokes after Run through a pooled / unpooled Invoker, "
         "callback inside try) x 3 depths (shallow, within 1..6 frames of the 1024-frame limit, within a frame of the 2048-slot stack) - "
         "is instantiated and run with SetRecover(true) under the harness's own recover, with 4 argument sets of various types and "
-        "counts, followed by a probe script on the same VM; non-trivial = cases at depth != shallow or in a callback")
+        "counts, followed by a probe script on the same VM; non-trivial = cases at depth != shallow or in a callback; failures inside the locked region of a *SyncMap (index without String), struck again after being caught")
 
 def run(ctx):
     out = ctx.path("matrix.ndjson")
